@@ -1,6 +1,6 @@
 (* C05 — Units run in order; the first error aborts the message and is reported once
    Statements only: each theorem is closed by `exact` of a lemma proved in the *_proofs.v files. *)
-From VF Require Import Base Gen_Errors Lexer Grammar Response Tree Tree_proofs HeaderSpec MessageSpec Message_proofs Message_proofs2.
+From VF Require Import Base Gen_Errors Lexer Grammar Response Tree Tree_proofs HeaderSpec MessageSpec Message_proofs Message_proofs2 MessageSpec3 Message_proofs3.
 Open Scope N_scope.
 
 Section C05_statements.
@@ -72,6 +72,63 @@ Theorem C05_message_semantics_trailing_separator : forall (root : tree D) (m : m
   = Val (spec_message root m d f).
 Proof. apply message_semantics_trailing_separator. Qed.
 
+Theorem C05_message_prefix_semantics : forall (root : tree D) lead us w bad d f,
+  wf_tree root -> wf_ws lead = true -> forallb Message_proofs.wf_uw us = true -> us <> [] -> wf_ws w = true ->
+  run root (lead ++ render_units us ++ 59 :: w ++ bad) d f =
+  match spec_prefix root root us d f [] with
+  | PErr e d' f' tr => Val (mkRun (Some e) d' (buf f') tr [e])
+  | POk ctx d' f' tr => run_from root ctx bad d' f' tr
+  end.
+Proof. apply message_prefix_semantics. Qed.
+
+Theorem C05_run_from_prefix_semantics : forall (root ctx0 : tree D) lead us w bad d f tr0,
+  wf_tree root -> In ctx0 (all_subtrees root) ->
+  wf_ws lead = true -> forallb Message_proofs.wf_uw us = true -> us <> [] -> wf_ws w = true ->
+  run_from root ctx0 (lead ++ render_units us ++ 59 :: w ++ bad) d f tr0 =
+  match spec_prefix root ctx0 us d f tr0 with
+  | PErr e d' f' tr => Val (mkRun (Some e) d' (buf f') tr [e])
+  | POk ctx d' f' tr => run_from root ctx bad d' f' tr
+  end.
+Proof. apply run_from_prefix_semantics. Qed.
+
+Theorem C05_bad_unit_aborts : forall (root : tree D) lead us w bad e rest d f,
+  wf_tree root -> wf_ws lead = true -> forallb Message_proofs.wf_uw us = true -> us <> [] -> wf_ws w = true ->
+  tokenize bad = Val (IErr e :: rest) ->
+  run root (lead ++ render_units us ++ 59 :: w ++ bad) d f =
+  match spec_prefix root root us d f [] with
+  | PErr e' d' f' tr => Val (mkRun (Some e') d' (buf f') tr [e'])
+  | POk ctx d' f' tr => Val (mkRun (Some (std_error e)) d' (buf f') tr [std_error e])
+  end.
+Proof. apply bad_unit_aborts. Qed.
+
+Theorem C05_prefix_trace_preserved : forall (root : tree D) lead us w bad d f r,
+  wf_tree root -> wf_ws lead = true -> forallb Message_proofs.wf_uw us = true -> us <> [] -> wf_ws w = true ->
+  run root (lead ++ render_units us ++ 59 :: w ++ bad) d f = Val r ->
+  exists tr_more,
+    r_trace r = (match spec_prefix root root us d f [] with PErr _ _ _ tr => tr | POk _ _ _ tr => tr end) ++ tr_more.
+Proof. apply prefix_trace_preserved. Qed.
+
+Theorem C05_failed_prefix_tail_irrelevant : forall (root : tree D) lead us w bad1 bad2 d f e d' f' tr,
+  wf_tree root -> wf_ws lead = true -> forallb Message_proofs.wf_uw us = true -> us <> [] -> wf_ws w = true ->
+  spec_prefix root root us d f [] = PErr e d' f' tr ->
+  run root (lead ++ render_units us ++ 59 :: w ++ bad1) d f = run root (lead ++ render_units us ++ 59 :: w ++ bad2) d f.
+Proof. apply failed_prefix_tail_irrelevant. Qed.
+
+Theorem C05_failed_prefix_trace_exact : forall (root : tree D) lead us w bad d f r e d' f' tr,
+  wf_tree root -> wf_ws lead = true -> forallb Message_proofs.wf_uw us = true -> us <> [] -> wf_ws w = true ->
+  spec_prefix root root us d f [] = PErr e d' f' tr ->
+  run root (lead ++ render_units us ++ 59 :: w ++ bad) d f = Val r ->
+  r = mkRun (Some e) d' (buf f') tr [e].
+Proof. apply failed_prefix_trace_exact. Qed.
+
+Theorem C05_spec_units_prefix : forall (root ctx : tree D) us d f tr,
+  spec_units root ctx us d f tr =
+  match spec_prefix root ctx us d f tr with
+  | PErr e d' f' tr' => (d', f', tr', Some e)
+  | POk ctx' d' f' tr' => spec_units root ctx' [] d' f' tr'
+  end.
+Proof. apply spec_units_prefix. Qed.
+
 End C05_statements.
 
 Print Assumptions C05_hook_exactly_once.
@@ -88,3 +145,10 @@ Print Assumptions C05_spec_units_err_trace.
 Print Assumptions C05_spec_units_trace_extends.
 Print Assumptions C05_message_semantics_empty.
 Print Assumptions C05_message_semantics_trailing_separator.
+Print Assumptions C05_message_prefix_semantics.
+Print Assumptions C05_run_from_prefix_semantics.
+Print Assumptions C05_bad_unit_aborts.
+Print Assumptions C05_prefix_trace_preserved.
+Print Assumptions C05_failed_prefix_tail_irrelevant.
+Print Assumptions C05_failed_prefix_trace_exact.
+Print Assumptions C05_spec_units_prefix.
